@@ -1,11 +1,33 @@
 PROP = dict(
     level="exploration",
     design_ref="DESIGN.md §3 C09",
-    technique="rapid-generated populations of changes/tasks/notices/warnings and Prune parameters, judged by a reference model of the pruning rules",
-    level_text="placeholder",
-    level_note="placeholder",
-    rule="placeholder",
-    assumptions=[],
+    technique="rapid-generated populations (changes ready/unready/empty with tasks, lanes and pending attributes, unlinked tasks, notices, warnings) "
+              "and sequences of Prune calls with generated retention period, abort period, limit and start-of-operation time, judged by a reference "
+              "model of the pruning rules written from the property text and Prune's doc comment",
+    level_text="Each case builds a real State holding up to 30 changes (ready at generated ages, in progress, being undone, empty, explicitly finished), "
+               "tasks not linked to any change, notices and warnings, then calls State.Prune 1-3 times with generated parameters. After every call the "
+               "state is compared with the model: exactly the ready changes past the retention period plus the oldest ones beyond the limit are gone "
+               "(ties in ready time: only the count is fixed), every task of a removed change is gone and every task of a kept change is still there, "
+               "unfinished changes stay (empty ones go after the retention period), an unfinished change is aborted (Do->Hold, Doing->Abort, Done->Undo) "
+               "iff max(spawn, start of operation) is older than the abort period and no predicate registered for an attribute it carries says pending, "
+               "all other task statuses are untouched, predicates are only consulted for changes carrying their attribute, unlinked tasks go after the "
+               "retention period, notices/warnings are dropped from the state iff last occurrence + expire-after has passed. The model is unit-tested "
+               "on the worked examples of the package's own Prune tests in every run. Sampled, not exhaustive.",
+    level_note="Prune reads the real clock: every generated time is real-now minus (k minutes + 30 s) and every period a whole number of minutes, "
+               "so each comparison is >= 30 s from its boundary and the verdict depends on the case only (a case that takes > 15 s of wall time is "
+               "discarded, not judged). Spawn/ready times are produced through the package's own clock hook (MockTime) by the normal code paths "
+               "(NewChange, task status changes), not patched into the objects. Abort semantics across lanes belong to C01: when tasks of the aborted "
+               "change joined lanes a Done task may stay Done or become Undo; unready changes with lanes are generated only in forward-progress states "
+               "(Do/Doing/Done/Wait), mixed or undoing states only without lanes. Whether the retention of an empty unfinished change counts from "
+               "its spawn time or from snapd start is left open (either outcome accepted, class empty-open).",
+    rule="rapid draws the Prune parameters first, then ages near those thresholds (threshold-3..+3 minutes), near the 7/28-day expiry defaults, small "
+         "(0-12 min, giving ready-time ties) or arbitrary; the limit is drawn near the number of ready changes within the retention period. "
+         "Non-trivial = in some call both removal reasons fire, or the limit alone and the retention period alone disagree about a ready change, "
+         "or a predicate shields a change that would otherwise be visibly aborted; distinct by hash of the case.",
+    assumptions=["reference model = property statement + doc comment of State.Prune as implemented in the harness; cross-checked in every run against the "
+                 "documented outcomes of state_test.go TestPrune*, TestRegisterPendingChangeByAttr (engine examples)",
+                 "the machine does not stall for more than 15 s inside one case (else the case is discarded)",
+                 "expire-after values other than the defaults are written into the stored notice/warning directly (they are part of the persisted format)"],
     engines=[
         gt("prune", "overlord/state", "TestVerifC09Prune", dict(checks=3000, shards=2), dict(checks=30000, shards=16)),
         gt("examples", "overlord/state", "TestVerifC09Examples", dict(shards=1), dict(shards=1), rapid=False),
